@@ -29,7 +29,7 @@ func init() {
 		ID:    "C02",
 		Level: "exploration",
 		Rule: "requirement structures (global or per-operation; 1..4 alternatives of 1..3 of the schemes S1..S5 with scopes; the empty alternative at any position; some schemes without a registered authenticator; authorizer absent/accepting/denying plain/denying with own status) " +
-			"x per-scheme outcome vectors read by scripted authenticators from request headers (n=not applicable, a=accept with principal, z=accept with nil principal, r=reject with 401/403/418; all 4^n vectors for n<=4 schemes, sampled beyond) " +
+			"x per-scheme outcome vectors read by scripted authenticators from request headers (n=not applicable, a=accept with principal, g:<scopes>=accept only requirements whose scopes are all granted else reject 403, z=accept with nil principal, r=reject with 401/403/418; all 4^n vectors for n<=4 schemes, sampled beyond) " +
 			"x invalid/valid query parameter x body behind a counting consumer; every structure is rebuilt several times (in-alternative order is a map order fixed at build) and driven through the full handler and through Context.Authorize. " +
 			"Oracle over the observed authenticator call log. non-trivial = (structure hash, operation, outcome vector, observed call order) with >= 2 schemes in the operation's requirements or an empty alternative; distinct by that tuple",
 		Assumptions: []string{
@@ -77,6 +77,24 @@ type sut struct {
 
 func principalOf(s string) string { return "P:" + s }
 
+// outcomeFor resolves a scripted outcome against the scopes a requirement asks of the scheme:
+// "g:read,write" accepts iff every required scope is granted, and rejects with 403 otherwise.
+func outcomeFor(script string, required []string) string {
+	if !strings.HasPrefix(script, "g:") {
+		return script
+	}
+	granted := map[string]bool{}
+	for _, g := range strings.Split(strings.TrimPrefix(script, "g:"), ",") {
+		granted[g] = true
+	}
+	for _, r := range required {
+		if !granted[r] {
+			return "r403"
+		}
+	}
+	return "a"
+}
+
 func build(c *Case) (*sut, error) {
 	doc, err := c.Desc.Load()
 	if err != nil {
@@ -92,7 +110,11 @@ func build(c *Case) (*sut, error) {
 		name := name
 		api.RegisterAuth(name, security.ScopedAuthenticator(func(sr *security.ScopedAuthRequest) (bool, interface{}, error) {
 			s.calls = append(s.calls, call{name, append([]string(nil), sr.RequiredScopes...)})
-			switch out := sr.Request.Header.Get("X-Out-" + name); out {
+			out := sr.Request.Header.Get("X-Out-" + name)
+			if strings.HasPrefix(out, "g:") { // a credential granting only some scopes
+				out = outcomeFor(out, sr.RequiredScopes)
+			}
+			switch out {
 			case "a":
 				return true, principalOf(name), nil
 			case "z":
@@ -190,9 +212,9 @@ func judgeRef(c *Case, alts []gen.SecReq, out map[string]string) verdict {
 			continue
 		}
 		ok := true
-		for sch := range a {
+		for sch, scopes := range a {
 			seen[sch] = true
-			if !reg[sch] || out[sch] != "a" {
+			if !reg[sch] || outcomeFor(out[sch], scopes) != "a" {
 				ok = false
 			}
 		}
@@ -367,7 +389,7 @@ func outcomeKey(o map[string]string) string {
 func consultedRejecters(s *sut, out map[string]string) map[string]int {
 	r := map[string]int{}
 	for _, c := range s.calls {
-		if code := rejectCode(out[c.scheme]); code != 0 {
+		if code := rejectCode(outcomeFor(out[c.scheme], c.scopes)); code != 0 {
 			r[c.scheme] = code
 		}
 	}
@@ -665,6 +687,17 @@ func genAlts(r *rand.Rand) []gen.SecReq {
 	return alts
 }
 
+// grant scripts a credential that carries only some of the scopes.
+func grant(r *rand.Rand) string {
+	var g []string
+	for _, x := range scopePool {
+		if r.Intn(2) == 0 {
+			g = append(g, x)
+		}
+	}
+	return "g:" + strings.Join(g, ",")
+}
+
 var outcomes = []string{"n", "a", "z", "r"}
 var rejectKinds = []string{"r401", "r403", "r418"}
 
@@ -729,6 +762,9 @@ func genCase(r *rand.Rand, builds int, maxReq int) *Case {
 					if k == "r" {
 						k = rejectKinds[r.Intn(3)]
 					}
+					if k == "a" && r.Intn(3) == 0 {
+						k = grant(r)
+					}
 					o[s] = k
 				}
 				vecs = append(vecs, o)
@@ -741,6 +777,9 @@ func genCase(r *rand.Rand, builds int, maxReq int) *Case {
 					k := outcomes[r.Intn(4)]
 					if k == "r" {
 						k = rejectKinds[r.Intn(3)]
+					}
+					if k == "a" && r.Intn(3) == 0 {
+						k = grant(r)
 					}
 					o[s] = k
 				}
